@@ -680,6 +680,26 @@ func main() {
 			}
 		}
 	}
+	for _, a := range accesses {
+		for _, b := range accesses {
+			if a.field == b.field && isTicker[a.fn] && wfset[b.fn] && (a.write || b.write) && !a.init && !b.init && !(a.guarded && b.guarded) {
+				rw := func(x access) string {
+					if x.write {
+						return "write"
+					}
+					return "read"
+				}
+				g := func(x access) string {
+					if x.guarded {
+						return "guarded"
+					}
+					return "UNGUARDED"
+				}
+				fmt.Printf("CONFLICT field=%s ticker: %s in %s line %d (%s) / walker: %s in %s line %d (%s)\n", fields[a.field],
+					rw(a), funcs[a.fn], a.line, g(a), rw(b), funcs[b.fn], b.line, g(b))
+			}
+		}
+	}
 	var sh []string
 	unguardedShared := 0
 	for _, a := range accesses {
